@@ -1662,6 +1662,11 @@ func (ctx Ctx) defineStmt(s *ast.AssignStmt) coq.Binding {
 	var names []string
 	for _, ident := range idents {
 		names = append(names, ident.Name)
+		if ident.Name != "_" && ctx.info.Defs[ident] == nil && ctx.isPtrWrapped(ident) {
+			// Go assigns to a variable of the same scope that := mentions
+			// again; a let-binding would hide the variable's cell instead
+			ctx.unsupported(s, "%s is a var of this scope: := assigns to it (declare the new variables separately)", ident.Name)
+		}
 	}
 	if len(names) > 4 {
 		// the tuple-destructuring notation exists for up to 4 names only
